@@ -37,7 +37,7 @@ func chartWithCRD(v int, withHook, withCRD bool) *chart.Chart {
 var historyHooks bool
 
 // prepareHistory brings the world to one of: empty, 1:deployed, 1:deployed 2:failed,
-// 1:uninstalled (kept), 1:superseded 2:deployed
+// 1:uninstalled (kept), 1:superseded 2:deployed, 1:superseded 2:uninstalled (kept)
 func prepareHistory(w *world, shape int) {
 	if shape == 0 {
 		return
@@ -64,7 +64,14 @@ func prepareHistory(w *world, shape int) {
 		}
 		w.f.budget, w.f.forceSite = 0, ""
 	}
-	if shape == 3 {
+	if shape == 5 { // 1:superseded 2:uninstalled (kept)
+		up := NewUpgrade(w.config())
+		up.Namespace = "default"
+		if _, err := up.Run(relName, mkChart(1, historyHooks), map[string]interface{}{}); err != nil {
+			vFail("setup/upgrade")
+		}
+	}
+	if shape == 3 || shape == 5 {
 		un := NewUninstall(w.config())
 		un.KeepHistory = true
 		if _, err := un.Run(relName); err != nil {
